@@ -151,6 +151,13 @@ func watch(what string) {
 					if prop == "" {
 						prop = "C07"
 					}
+					// all goroutine stacks, for whoever has to tell a deadlock from a slow machine
+					stk := make([]byte, 1<<20)
+					stk = stk[:runtime.Stack(stk, true)]
+					os.Stderr.Write(stk)
+					if curOut != "" {
+						os.WriteFile(curOut+"/watchdog.stacks.txt", stk, 0o644)
+					}
 					if curMeta != nil {
 						curMeta.violate(prop, "the implementation did not return from "+w+fmt.Sprintf(" within %v (deadlock or livelock)", watchLimit()), w)
 						if curFocus == "" {
